@@ -7,7 +7,10 @@ model:        specs/Keys.tla      PEP 440 order transcribed from the prose of th
               specs/Packages.tla  manifest write/read, zip + directory packages, install (over earlier installs), components
                                   under every module reference style (conventional, relative, relative with a name that begins
                                   with the package name, absolute) next to top-level namesakes of the relative names
-spec -> code: every level state of Keys.tla is rendered as a real posix registry tree and listed through asset.Directory;
+spec -> code: every level state of Keys.tla is rendered as a real posix registry tree and listed through asset.Directory on a
+              registry provider that reports the entries in the form of the state (constructed keys = the bundled posix
+              provider; plain names / plain numbers = a thin provider of the same storage, as asset.Registry.releases /
+              generations allow); a report holding a name that is no key may be refused as a whole (Keys.tla MayReject);
               every Commit step of Keys.tla (Release.put out of every generation level state: gaps, foreign names, empty) is
               replayed with Release.dump / put and read back in the committing process and through a fresh Directory;
               the full comparison matrix is replayed on the real key types in every spelling; every transition and one
@@ -15,7 +18,9 @@ spec -> code: every level state of Keys.tla is rendered as a real posix registry
               dumps/loads and Release.dump/put + a fresh Directory); every vector of Packages.tla is replayed on real
               source trees / packages / installs
 code -> spec: seeded random sessions on the real Tag + posix registry (some continuing from a generation stored under an
-              explicit number) are validated by specs/TraceTagCodec.tla; real listings of random release levels (random PEP 440 versions beyond the lattice) are judged by specs/TraceKeys.tla
+              explicit number; the provider form drawn per session) are validated by specs/TraceTagCodec.tla; real listings of
+              random release levels (random PEP 440 versions beyond the lattice, one in three reported by plain names) are
+              judged by specs/TraceKeys.tla
 """
 import collections
 import datetime
@@ -141,8 +146,24 @@ def norm_version(ver):
             tuple((bool(s['num']), s['v'] if s['num'] else ALPHA[s['v']]) for s in ver['loc']))
 
 
+def number(key):
+    """Denotation of a listed generation key (None: what was listed is not a number)."""
+    try:
+        return int(key)
+    except (TypeError, ValueError):
+        return None
+
+
 def project_release_key(key):
-    """Denotation of a real Release.Key, from the public attributes of packaging's Version."""
+    """Denotation of a real Release.Key, from the public attributes of packaging's Version (None: what was listed is no version)."""
+    if isinstance(key, str):  # a plain name in a listing denotes the version it spells (judged as such, not by its type)
+        import packaging.version
+        try:
+            key = packaging.version.Version(key)
+        except packaging.version.InvalidVersion:
+            return None
+    if not all(hasattr(key, a) for a in ('epoch', 'release', 'pre', 'post', 'dev', 'local')):
+        return None
     rel = list(key.release)
     while rel and rel[-1] == 0:
         rel.pop()
@@ -173,9 +194,10 @@ class Lattice:
         return str(self.keys[entry['v'] - 1]['gen'])
 
     def canon_of(self, real):
+        """Class representative of a listed real key; None when what was listed denotes no key of the lattice."""
         if self.mode == 'release':
             return self.by_norm.get(project_release_key(real))
-        return self.by_norm.get(int(real))
+        return self.by_norm.get(number(real))
 
 
 def keys_cfg(path, mode, tier, maxkeys, nspell, ninvalid):
@@ -183,7 +205,7 @@ def keys_cfg(path, mode, tier, maxkeys, nspell, ninvalid):
         fh.write(f'SPECIFICATION Spec\nCONSTANTS Mode = "{mode}"\n Tier = "{tier}"\n MaxKeys = {maxkeys}\n NSpell = {nspell}\n'
                  f' NInvalid = {ninvalid}\nINVARIANT ListingSorted\nINVARIANT ListingComplete\nINVARIANT InvalidRejected\n'
                  'INVARIANT LatestIsMax\nINVARIANT GenerationsNatural\nINVARIANT CommitIsNatural\nINVARIANT CommitIsNew\n'
-                 'INVARIANT CommitIsLatest\nINVARIANT CommitIsSuccessor\nINVARIANT Export\nCHECK_DEADLOCK FALSE\n')
+                 'INVARIANT CommitIsLatest\nINVARIANT CommitIsSuccessor\nINVARIANT FormIrrelevant\nINVARIANT Export\nCHECK_DEADLOCK FALSE\n')
     return path
 
 
@@ -197,9 +219,58 @@ class Raised(str):
     """An exception of forml other than the documented 'no such level / empty listing' ones: an observation, not a crash."""
 
 
-def real_level(lat, names, tmp):
-    """Materialise a level with the given sub-directory names in a fresh posix registry and list it through the public
-    asset.Directory API. Returns (listing as real keys | None when the level does not exist | Raised, latest | None | Raised)."""
+class Rejected(str):
+    """Level.Key.Invalid out of listing a level / resolving its latest key: the report of the provider was refused."""
+
+
+FORMS = ('key', 'str', 'int')  # Keys.tla: the forms in which a registry provider may report the entries of a level
+_PROVIDER = {}
+
+
+def provider(root, form='key'):
+    """A registry provider on the posix tree under `root` reporting releases / generations in the given form of Keys.tla:
+    'key' = the bundled posix provider (constructed keys); 'str' / 'int' = a provider of the same storage that reports what the
+    level holds (documented on-disk layout: <root>/<project>/<release>/package.4ml, .../<generation>/tag.toml) by the plain
+    names, resp. by plain numbers where the name is one - asset.Registry.releases / generations allow either."""
+    from forml.provider.registry.filesystem import posix
+    if form == 'key':
+        return posix.Registry(root)
+    if 'cls' not in _PROVIDER:
+        class Reporting(posix.Registry):
+            """Thin third-party style provider (everything but the listings is the posix one)."""
+
+            def __init__(self, path, form):
+                super().__init__(path)
+                self.reported_root, self.reported_form = pathlib.Path(path).resolve(), form
+
+            def _report(self, level, content):
+                try:
+                    names = [p.name for p in level.iterdir() if p.is_dir() and (p / content).exists()]
+                except FileNotFoundError:
+                    return []
+                if self.reported_form == 'int':
+                    return [int(n) if n.lstrip('-').isascii() and n.lstrip('-').isdigit() else n for n in names]
+                return names
+
+            def releases(self, project):
+                return self._report(self.reported_root / str(project), 'package.4ml')
+
+            def generations(self, project, release):
+                return self._report(self.reported_root / str(project) / str(release), 'tag.toml')
+
+        _PROVIDER['cls'] = Reporting
+    return _PROVIDER['cls'](root, form)
+
+
+def directory(root, form='key'):
+    from forml.io import asset
+    return asset.Directory(provider(root, form))
+
+
+def real_level(lat, names, tmp, form='key'):
+    """Materialise a level with the given sub-directory names in a fresh posix registry tree and list it through the public
+    asset.Directory API on a provider reporting in the given form. Returns (listing as real keys | None when the level does
+    not exist | Rejected | Raised, latest | None | Rejected | Raised)."""
     from forml.io import asset
     root = tempfile.mkdtemp(prefix='lvl-', dir=tmp)
     try:
@@ -207,22 +278,26 @@ def real_level(lat, names, tmp):
             for n in names:
                 regfix.publish(root, 'prj', n)
             os.makedirs(os.path.join(root, 'prj'), exist_ok=True)
-            level = lambda: regfix.directory(root).get('prj')
+            level = lambda: directory(root, form).get('prj')
         else:
             regfix.publish(root, 'prj', '1')
             for n in names:
                 path = pathlib.Path(root) / 'prj' / '1' / n
                 path.mkdir(parents=True, exist_ok=True)
                 (path / 'tag.toml').write_bytes(regfix.tag_bytes())
-            level = lambda: regfix.directory(root).get('prj').get('1')
+            level = lambda: directory(root, form).get('prj').get('1')
         try:
             listing = list(level().list())
+        except asset.Level.Key.Invalid as exc:
+            listing = Rejected(f'{type(exc).__name__}: {exc}')
         except (asset.Level.Invalid, asset.Level.Listing.Empty):
             listing = None  # a project without a single valid release is not a project
         except Exception as exc:  # pylint: disable=broad-except
             listing = Raised(f'{type(exc).__name__}: {exc}')
         try:
             latest = level().get(None).key
+        except asset.Level.Key.Invalid as exc:
+            latest = Rejected(f'{type(exc).__name__}: {exc}')
         except (asset.Level.Invalid, asset.Level.Listing.Empty):
             latest = None
         except Exception as exc:  # pylint: disable=broad-except
@@ -236,16 +311,27 @@ def _listing_item(st):
     lat, nspell = _CTX['lat'], _CTX['nspell']
     mode = lat.mode
     names = [lat.name(d, nspell) for d in st['dirs']]
-    listing, latest = real_level(lat, names, scratch())
-    replay = {'kind': 'listing', 'mode': mode, 'names': names, 'expected': [lat.name({'v': c, 's': 1}, nspell) for c in st['listing']]}
+    form = st.get('form', 'key')
+    listing, latest = real_level(lat, names, scratch(), form)
+    replay = {'kind': 'listing', 'mode': mode, 'names': names, 'form': form, 'expected': [lat.name({'v': c, 's': 1}, nspell) for c in st['listing']]}
+    mode = mode if form == 'key' else f'{mode} (provider reporting the entries as {form})'
+    if not st.get('mayreject'):  # only the report of a name that is no key may be refused as a whole (Keys.tla MayReject)
+        listing, latest = (Raised(x) if isinstance(x, Rejected) else x for x in (listing, latest))
     if isinstance(listing, Raised) or isinstance(latest, Raised):
         text = listing if isinstance(listing, Raised) else latest
         replay['observed'] = [[str(text)], None]
         return {'fail': f'{mode} level with sub-directories {names}: listing it / resolving its latest key raised {text}',
                 'replay': replay, 'listing': None}
-    out = {'fail': None, 'replay': replay, 'listing': None if listing is None else [str(k) for k in listing]}
-    replay['observed'] = [out['listing'], None if latest is None else str(latest)]
-    if listing is None:
+    refused = [isinstance(listing, Rejected), isinstance(latest, Rejected)]  # (each conforms by itself)
+    if refused[0]:
+        listing = None
+    out = {'fail': None, 'replay': replay, 'listing': None if listing is None else [str(k) for k in listing], 'refused': any(refused)}
+    replay['observed'] = [['refused'] if refused[0] else out['listing'], None if latest is None else str(latest)]
+    if refused[0]:
+        listing = None if refused[1] else []
+        if refused[1]:
+            return out
+    elif listing is None:
         if st['listing']:
             out['fail'] = f'{mode} level {names}: not listable although it holds valid keys'
             return out
@@ -256,7 +342,7 @@ def _listing_item(st):
         return out
     want_latest = st['latest'] or None
     got_latest = None if latest is None else lat.canon_of(latest)
-    if got_latest != want_latest:
+    if got_latest != want_latest and not refused[1]:
         out['fail'] = f'{mode} level {names}: latest is {latest!r}, expected the maximum {replay["expected"][-1:]}'
     return out
 
@@ -291,41 +377,52 @@ def _commit_item(st):
                 path = pathlib.Path(root) / 'prj' / '1' / name
                 path.mkdir(parents=True, exist_ok=True)
                 (path / 'tag.toml').write_bytes(regfix.tag_bytes())
-        level = open_release(root, '1')
+        form = st.get('form', 'key')
         try:
-            before = [int(k) for k in level.list()]
-        except asset.Level.Listing.Empty:
-            before = []
-        # what a run does before it commits: it opens the latest generation (if any)
-        warm = not before or before[-1] not in written or level.get(None).tag == level_tag(before[-1], (written[before[-1]],))
-        sid = level.dump(b'committed-state')
-        tag = level_tag(1000, (sid,))
-        gen = level.put(tag)
-        obs = {'before': before, 'before_ok': warm and sorted(written) == before, 'returned': int(gen.key),
-               'returned_tag_ok': gen.tag == tag}
-        fresh = open_release(root, '1')
-        obs['after'] = [int(k) for k in fresh.list()]
-        latest = fresh.get(None)
-        obs['latest'] = int(latest.key)
-        obs['latest_tag_ok'] = latest.tag == tag
-        obs['latest_state_ok'] = latest.get(0) == b'committed-state' and latest.get(sid) == b'committed-state'
-        kept = {}
-        for n, old in written.items():
-            try:
-                kept[str(n)] = fresh.get(n).tag == level_tag(n, (old,))
-            except Exception as exc:  # pylint: disable=broad-except
-                if not through_forml(exc):
-                    raise
-                kept[str(n)] = False
-        obs['kept'] = kept
-        return obs
+            return _commit_observe(root, form, written)
+        except asset.Level.Key.Invalid as exc:  # the provider's report of a name that is no key was refused
+            return {'refused': f'{type(exc).__name__}: {exc}'}
     finally:
         shutil.rmtree(root, ignore_errors=True)
+
+
+def _commit_observe(root, form, written):
+    from forml.io import asset
+    level = open_release(root, '1', form)
+    try:
+        before = [number(k) for k in level.list()]
+    except asset.Level.Listing.Empty:
+        before = []
+    # what a run does before it commits: it opens the latest generation (if any)
+    warm = not before or before[-1] not in written or level.get(None).tag == level_tag(before[-1], (written[before[-1]],))
+    sid = level.dump(b'committed-state')
+    tag = level_tag(1000, (sid,))
+    gen = level.put(tag)
+    obs = {'before': before, 'before_ok': warm and sorted(written) == before, 'returned': number(gen.key),
+           'returned_tag_ok': gen.tag == tag}
+    fresh = open_release(root, '1', form)
+    obs['after'] = [number(k) for k in fresh.list()]
+    latest = fresh.get(None)
+    obs['latest'] = number(latest.key)
+    obs['latest_tag_ok'] = latest.tag == tag
+    obs['latest_state_ok'] = latest.get(0) == b'committed-state' and latest.get(sid) == b'committed-state'
+    kept = {}
+    for n, old in written.items():
+        try:
+            kept[str(n)] = fresh.get(n).tag == level_tag(n, (old,))
+        except Exception as exc:  # pylint: disable=broad-except
+            if not through_forml(exc):
+                raise
+            kept[str(n)] = False
+    obs['kept'] = kept
+    return obs
 
 
 def commit_verdict(st, obs):
     """The observed commit against what Keys.tla exported for the step (`put` = number of the committed generation, `after` =
     listing afterwards as numbers). None when it conforms, else what differs."""
+    if 'refused' in obs:  # Keys.tla MayReject: only the report of a name that is no key may be refused as a whole
+        return None if st.get('mayreject') else f'listing the level / committing a generation on top of it raised {obs["refused"]}'
     if not obs['before_ok']:
         return f'generations stored under the numbers {st["after"][:-1]} are listed as {obs["before"]} / do not read back as written'
     if obs['returned'] != st['put']:
@@ -357,11 +454,11 @@ def random_version(rnd):
 
 def _random_level_item(item):
     """List a level of randomly drawn versions (random spellings, some equal keys, some invalid names) with the real code."""
-    vers, names = item
+    vers, names, form = item
     lat = collections.namedtuple('L', 'mode')('release')
-    listing, latest = real_level(lat, names, scratch())
-    if isinstance(listing, Raised) or isinstance(latest, Raised):
-        text = str(listing if isinstance(listing, Raised) else latest)
+    listing, latest = real_level(lat, names, scratch(), form)
+    if isinstance(listing, (Raised, Rejected)) or isinstance(latest, (Raised, Rejected)):
+        text = str(listing if isinstance(listing, (Raised, Rejected)) else latest)
         return {'listing': [0], 'latest': 0, 'text': text, 'latest_text': None}
     norms = [norm_version(v) for v in vers]
 
@@ -390,15 +487,17 @@ def random_levels(chk, rnd):
                 names.append(name)
                 kept.append(v)
         extra = [x for x in INVALID_RELEASE if rnd.random() < 0.1]
-        items.append((kept, names + extra))
+        # one level in three is reported by a provider that hands over the plain names (with invalid names among them the
+        # report may be refused as a whole, which TraceKeys.tla does not model: those levels stay with the posix provider)
+        items.append((kept, names + extra, 'str' if not extra and rnd.random() < 0.34 else 'key'))
     outs = [{'listing': [0], 'latest': 0, 'text': o['escaped'], 'latest_text': None} if 'escaped' in o else o
             for o in pmap(_random_level_item, items, chk_procs(chk))]
     obs, reported = [], set()
-    for (vers, names), out in zip(items, outs):
+    for (vers, names, form), out in zip(items, outs):
         if 0 in out['listing'] or (out['latest'] == 0 and vers):
             reported.add(len(obs) + 1)
             chk.fail(f'release level {names}: listed {out["text"]} / latest index {out["latest"]}: raised, or a key that was never written',
-                     {'kind': 'listing', 'mode': 'release', 'names': names, 'observed': [out['text'], out['latest_text']]})
+                     {'kind': 'listing', 'mode': 'release', 'names': names, 'form': form, 'observed': [out['text'], out['latest_text']]})
             out = dict(out, listing=[], latest=0)  # judged (and rejected) below unless the level is empty
         obs.append({'vers': vers, 'listing': out['listing'], 'latest': out['latest']})
     # binding self-test: a listing in the order of the textual form must be rejected
@@ -413,25 +512,26 @@ def random_levels(chk, rnd):
         raise tlc.MachineryError('TraceKeys: the two formulations of the PEP 440 order in Keys.tla disagree on an observed pair')
     chk.selftest('random_level_textual_order_rejected', verdicts[len(obs)] == 0)
     good = 0
-    for i, ((vers, names), out) in enumerate(zip(items, outs), start=1):
+    for i, ((vers, names, form), out) in enumerate(zip(items, outs), start=1):
         if verdicts[i] == 1:
             good += 1
         elif i not in reported:
             chk.fail(f'release level with sub-directories {names}: listed as {out["text"]} - not the strictly ascending PEP 440 '
-                     f'sequence of the distinct keys / latest not the maximum',
-                     {'kind': 'listing', 'mode': 'release', 'names': names, 'observed': [out['text'], out['latest_text']]})
+                     f'sequence of the distinct keys / latest not the maximum' + ('' if form == 'key' else f' (provider reporting the entries as {form})'),
+                     {'kind': 'listing', 'mode': 'release', 'names': names, 'form': form, 'observed': [out['text'], out['latest_text']]})
     chk.validated(good)
     big = max(range(len(items)), key=lambda i: len(outs[i]['listing']))
     chk.sample({'random_release_level': items[big][1], 'listing': outs[big]['text']})
     chk.extra['keys']['random_levels_validated'] = n
+    chk.extra['keys']['random_levels_reported_by_plain_names'] = sum(i[2] == 'str' for i in items)
 
 
 def commits_part(chk, lat, nspell, commits, label):
-    done = gaps = 0
+    done = gaps = refused = 0
     steps = []
     for st in commits:  # (name, generation number | None for a name that is no generation key) of every sub-directory
         entries = [[lat.name(d, nspell), lat.keys[d['v'] - 1]['gen'] if d['v'] and lat.keys[d['v'] - 1]['valid'] else None] for d in st['dirs']]
-        steps.append({'entries': entries, 'put': st['put'], 'after': st['after']})
+        steps.append({'entries': entries, 'put': st['put'], 'after': st['after'], 'form': st['form'], 'mayreject': st['mayreject']})
     commits = steps
     for st, obs in zip(commits, pmap(_commit_item, commits, chk_procs(chk))):
         names = [e[0] for e in st['entries']]
@@ -445,6 +545,9 @@ def commits_part(chk, lat, nspell, commits, label):
             chk.fail(f'generation level with sub-directories {names}: {what}', replay)
             continue
         done += 1
+        if 'refused' in obs:  # (allowed: the provider reported a name that is no key)
+            refused += 1
+            continue
         before = st['after'][:-1]
         if before != list(range(1, len(before) + 1)):
             gaps += 1
@@ -453,6 +556,13 @@ def commits_part(chk, lat, nspell, commits, label):
     chk.validated(done)
     if not gaps and not chk.violations:
         raise tlc.MachineryError('Keys: no Commit step out of a non-contiguous listing was replayed')
+    byform = {f: sum(c['form'] == f for c in commits) for f in FORMS}
+    if not all(byform.values()):
+        raise tlc.MachineryError(f'Keys: Commit steps per provider form: {byform}')
+    some = next((c for c in commits if c['form'] != 'key' and not c['mayreject'] and len(c['after']) >= 2), None)
+    if some is None:
+        raise tlc.MachineryError('Keys: no Commit step on a level reported in a raw form')
+    chk.selftest(f'{label}_commit_refused_without_invalid_name_rejected', commit_verdict(some, {'refused': 'Invalid'}) is not None)
     # binding self-test: the observation of a commit that numbers the generation by the count of the listing is rejected
     st = next((c for c in commits if len(c['after']) >= 3 and c['after'][:-1] != list(range(1, len(c['after'])))), None)
     if st is None:
@@ -463,7 +573,8 @@ def commits_part(chk, lat, nspell, commits, label):
               'latest_state_ok': True, 'kept': {}}
     honest = dict(forged, returned=st['put'], after=st['after'], latest=st['put'])
     chk.selftest(f'{label}_commit_numbered_by_count_rejected', commit_verdict(st, forged) is not None and commit_verdict(st, honest) is None)
-    chk.extra.setdefault('keys', {}).setdefault('commits', {})[label] = {'commit_steps_replayed': len(commits), 'on_non_contiguous_listings': gaps}
+    chk.extra.setdefault('keys', {}).setdefault('commits', {})[label] = {'commit_steps_replayed': len(commits), 'on_non_contiguous_listings': gaps, 'provider_forms': byform,
+                                                                          'reports_of_invalid_names_refused': refused}
 
 
 def chk_procs(chk):
@@ -563,16 +674,20 @@ def keys_part(chk, rnd):
         chk.selftest(f'{label}_order_flip_rejected', sign(real[some[1]][0], real[some[0]][0]) != lat.cmp[some[0] - 1][some[1] - 1])
         # ---- listings: every level state
         _CTX.update(lat=lat, nspell=nspell)
-        done = 0
+        done = refused = 0
+        forms = sorted({st['form'] for st in states}, key=FORMS.index)
+        if forms != [f for f in FORMS if f != 'int' or mode == 'generation']:
+            raise tlc.MachineryError(f'Keys/{mode}: level states exported for the provider forms {forms} only')
         for n, (st, out) in enumerate(zip(states, pmap(_listing_item, states, chk_procs(chk)))):
             if 'escaped' in out:
                 names = [lat.name(d, nspell) for d in st['dirs']]
-                out = {'fail': f'{mode} level with sub-directories {names}: forml raised {out["escaped"]}',
-                       'replay': {'kind': 'listing', 'mode': mode, 'names': names, 'observed': [[out['escaped']], None]}}
+                out = {'fail': f'{mode} level with sub-directories {names} (provider form {st["form"]}): forml raised {out["escaped"]}',
+                       'replay': {'kind': 'listing', 'mode': mode, 'names': names, 'form': st['form'], 'observed': [[out['escaped']], None]}}
             if out['fail']:
                 chk.fail(out['fail'], out['replay'])
                 continue
             done += 1
+            refused += bool(out.get('refused'))
             if len(st['listing']) >= 2 and n % 997 == 0:
                 chk.sample({'level': mode, 'sub_directories': out['replay']['names'], 'listing': out['listing']})
         chk.validated(done)
@@ -592,11 +707,32 @@ def keys_part(chk, rnd):
         if rejected:
             chk.selftest(f'{label}_reversed_listing_rejected', rejected[0] and rejected[2])
             chk.selftest(f'{label}_duplicated_listing_rejected', rejected[1] and rejected[2])
+        # binding self-test of the raw provider forms: a level reported by plain names and listed in the order of the names
+        # (not of the keys they denote) must be rejected; vacuity: such a level was among the replayed ones
+        def in_name_order(st):
+            return sorted(lat.name({'v': c, 's': 1}, nspell) for c in st['listing'])
+
+        raw = next((st for st in states if st['form'] == 'str' and in_name_order(st) != [lat.name({'v': c, 's': 1}, nspell) for c in st['listing']]), None)
+        if raw is None:
+            raise tlc.MachineryError(f'Keys/{mode}: no level reported by plain names whose key order differs from the order of the names')
+        try:
+            forged = not listing_verdict(lat, raw['listing'], [Key(n) for n in in_name_order(raw)])
+        except Exception:  # pylint: disable=broad-except
+            if not chk.violations:
+                raise
+            forged = None
+        if forged is not None:
+            chk.selftest(f'{label}_listing_in_name_order_rejected', forged)
         chk.extra.setdefault('keys', {})[label] = {'lattice': lat.n, 'spellings': nspell, 'invalid_names': ninv, 'max_entries': maxkeys,
-                                                  'level_states_replayed': len(states), 'ordered_pairs_compared': pairs}
+                                                  'level_states_replayed': len(states), 'ordered_pairs_compared': pairs,
+                                                  'provider_forms': {f: sum(st['form'] == f for st in states) for f in forms},
+                                                  'reports_of_invalid_names_refused': refused}
     random_levels(chk, rnd)
     chk.assume('release keys: the PEP 440 order is judged on a finite lattice of versions (every suffix class, epochs, local '
                'labels in the thorough tier) in 2-3 spellings each; spellings outside the rendered ones are not exercised')
+    chk.assume('registry providers: level listings are observed through the bundled posix provider and through a provider of the same '
+               'storage reporting plain names / plain numbers (levels of up to 2 releases / 3 generations in the model-generated part); '
+               'a report holding a name that is no key may be refused as a whole (Level.Key.Invalid) instead of the name being left out')
     chk.assume('generation keys: spellings python int() happens to accept (underscores, signs, blanks, non-ASCII digits) are excluded, '
                'the property is silent on them')
 
@@ -742,20 +878,22 @@ class Releases:
         return self.root, rel
 
 
-def open_release(root, rel):
-    """A fresh directory (fresh caches) on the registry, as a new process would see it."""
+def open_release(root, rel, form='key'):
+    """A fresh directory (fresh caches) on the registry (through a provider reporting in the given form), as a new process
+    would see it."""
     from forml.io.asset._directory.level import major, minor
     minor.TAGS.clear()
     minor.STATES.clear()
     major.ARTIFACTS.clear()
-    return regfix.directory(root).get('prj').get(rel)
+    return directory(root, form).get('prj').get(rel)
 
 
-def commit_and_reopen(root, rel, tag, number=None):
+def commit_and_reopen(root, rel, tag, number=None, form='key'):
     """Release.put(tag) then read the newest generation's tag through a fresh Directory. Returns (tag | None, error).
     States carried over from an earlier generation are staged again first (a training dumps every state anew).
     `number`: the generation is stored under this explicit number with the provider API instead (Registry.close: a generation
-    carried over from another registry), which leaves a gap in the listing that later commits have to continue from."""
+    carried over from another registry), which leaves a gap in the listing that later commits have to continue from.
+    `form`: the form in which the registry provider of the run reports the generations (Keys.tla)."""
     from forml.io import asset
     from forml.provider.registry.filesystem import posix
     for sid in tag.states:
@@ -764,9 +902,9 @@ def commit_and_reopen(root, rel, tag, number=None):
     if number:
         posix.Registry(root).close(asset.Project.Key('prj'), asset.Release.Key(rel), asset.Generation.Key(number), tag)
     else:
-        open_release(root, rel).put(tag)
+        open_release(root, rel, form).put(tag)
     try:
-        return open_release(root, rel).get(None).tag, None
+        return open_release(root, rel, form).get(None).tag, None
     except Exception as exc:  # pylint: disable=broad-except
         return None, f'{type(exc).__name__}: {exc}'
 
@@ -941,7 +1079,8 @@ def record_session(chk, rnd, root, rel, trace, dumps):
     noarg = {'ts': 0, 'ord': NOORD, 'sc': NOSCORE, 'st': []}
     ts_ids = dict(TS)
     sid_ids = {}
-    tag = open_release(root, rel).get(None).tag  # NOTAG of an empty release
+    form = rnd.choice(FORMS)  # the run's registry provider reports the generations as keys / plain names / plain numbers
+    tag = open_release(root, rel, form).get(None).tag  # NOTAG of an empty release
     hint = None
     gens = rnd.randint(1, 3)
     for g in range(gens):
@@ -981,7 +1120,7 @@ def record_session(chk, rnd, root, rel, trace, dumps):
                 tag = apply_op(tag, op, a)
             else:
                 k = rnd.randint(0, 3)
-                new = [open_release(root, rel).dump(b'x' * rnd.randint(0, 5)) for _ in range(k)]
+                new = [open_release(root, rel, form).dump(b'x' * rnd.randint(0, 5)) for _ in range(k)]
                 for s in new:
                     sid_ids[s] = len(sid_ids) + 1
                 keep = [s for s in tag.states if rnd.random() < 0.3]
@@ -995,7 +1134,7 @@ def record_session(chk, rnd, root, rel, trace, dumps):
             trace.append({'op': 'dump', 'a': dict(noarg), 'res': committed})
             dumps[len(trace)] = committed
             # (one session in four starts from a generation carried over under a number of its own: the listing has a gap)
-            back, _ = commit_and_reopen(root, rel, tag, number=rnd.choice([2, 3, 7, 10]) if g == 0 and rnd.random() < 0.25 else None)
+            back, _ = commit_and_reopen(root, rel, tag, number=rnd.choice([2, 3, 7, 10]) if g == 0 and rnd.random() < 0.25 else None, form=form)
             trace.append({'op': 'load', 'a': dict(noarg), 'res': FAILED if back is None else proj_tag(back, ts_ids, sid_ids, hint)})
             if back is None:
                 break
@@ -1368,9 +1507,9 @@ def _replay(chk, path):
         return 0 if out['status'] != 'fail' else 1
     if kind == 'listing':
         lat = collections.namedtuple('L', 'mode')(rep['mode'])
-        listing, latest = real_level(lat, rep['names'], tmp)
-        if isinstance(listing, Raised) or isinstance(latest, Raised):
-            listing, latest = [listing if isinstance(listing, Raised) else latest], None
+        listing, latest = real_level(lat, rep['names'], tmp, rep.get('form', 'key'))
+        if isinstance(listing, (Raised, Rejected)) or isinstance(latest, (Raised, Rejected)):
+            listing, latest = [listing if isinstance(listing, (Raised, Rejected)) else latest], None
         now = [None if listing is None else [str(k) for k in listing], None if latest is None else str(latest)]
         print('now:', now, 'recorded:', rep['observed'], 'expected listing:', rep.get('expected', '(judged by TraceKeys.tla)'))
         return 1 if now == rep['observed'] else 0
